@@ -89,8 +89,12 @@ class CFG:
             self._link(preds, t)
             if self.may_raise(st.test):
                 self._raise_from(t, ctx)
-            a = self._block(st.body, [t], ctx)
-            b = self._block(st.orelse, [t], ctx) if st.orelse else [t]
+            bt = self._new('branch', st, 'T')
+            bf = self._new('branch', st, 'F')
+            self._edge(t, bt)
+            self._edge(t, bf)
+            a = self._block(st.body, [bt], ctx)
+            b = self._block(st.orelse, [bf], ctx) if st.orelse else [bf]
             return a + b
         if isinstance(st, (ast.While, ast.For, ast.AsyncFor)):
             t = self._new('test', st)
@@ -100,10 +104,17 @@ class CFG:
                 self._raise_from(t, ctx)
             loop = {'head': t, 'breaks': []}
             ctx2 = dict(ctx, loops=ctx['loops'] + [loop])
-            body_out = self._block(st.body, [t], ctx2)
+            bt = self._new('branch', st, 'T')
+            self._edge(t, bt)
+            body_out = self._block(st.body, [bt], ctx2)
             self._link(body_out, t)
             infinite = isinstance(st, ast.While) and isinstance(st.test, ast.Constant) and bool(st.test.value)
-            after = [] if infinite else [t]
+            if infinite:
+                after = []
+            else:
+                bf = self._new('branch', st, 'F')
+                self._edge(t, bf)
+                after = [bf]
             if st.orelse:
                 after = self._block(st.orelse, after, ctx)
             return after + loop['breaks']
@@ -205,8 +216,14 @@ class CFG:
         return out
 
     # -- queries -----------------------------------------------------------------------------
-    def nodes_of(self, stmt):
-        return self._by_stmt.get(id(stmt), [])
+    def nodes_of(self, stmt, kinds=None):
+        ns = self._by_stmt.get(id(stmt), [])
+        if kinds is None:
+            return [n for n in ns if n.kind != 'branch']
+        return [n for n in ns if n.kind in kinds]
+
+    def branch(self, stmt, polarity):
+        return [n for n in self._by_stmt.get(id(stmt), []) if n.kind == 'branch' and n.label == ('T' if polarity else 'F')]
 
     def reachable(self, starts, avoid=(), forward=True):
         avoid = set(avoid)
@@ -266,7 +283,7 @@ class CFG:
         return None
 
     def stmts_matching(self, pred):
-        return [n for n in self.nodes if n.stmt is not None and n.kind not in ('finally_exc', 'try') and pred(n.stmt)]
+        return [n for n in self.nodes if n.stmt is not None and n.kind not in ('finally_exc', 'try', 'branch') and pred(n.stmt)]
 
 
 def describe_path(path, limit=12):
@@ -283,6 +300,8 @@ def describe_path(path, limit=12):
                 out.append('L%s except %s' % (ln, unparse(n.stmt.type) if n.stmt.type is not None else ''))
             elif n.kind in ('try', 'finally_exc'):
                 out.append('L%s %s' % (ln, n.label))
+            elif n.kind == 'branch':
+                out.append('[%s]' % ('then' if n.label == 'T' else 'else'))
             else:
                 out.append('L%s %s' % (ln, unparse(n.stmt)[:70]))
     if len(out) > limit:
